@@ -219,7 +219,6 @@ ENTRIES = [
          "            if not data:\n                break\n\n            self._report_read(data)\n\n            content_data"),
     ], 'C04-D1'),
     N('equivalent-cut-spelling', (S, "data = data[:bytes_left]", "data = data[:len(data) + bytes_left]")),
-    {'id': 'C04/benign-planned-fix-0012', 'prop': 'C04', 'kind': 'benign', 'patch': P12},
 ]
 
 # Reporting after decoding (but still once, unmodified, on every normal path) keeps the property: a failed decode aborts the
